@@ -206,12 +206,19 @@ type c07PartyIn struct {
 	EntR    model.Bytes     `json:"entropy_responder"`
 	Msg     model.Message   `json:"msg"`
 	ViaWire bool            `json:"proposal_through_the_wire"`
+	// PropSPI: SPI field of the proposal the responder is given (empty in an initial exchange, 8 octets when an IKE SA is
+	// re-keyed); the keys depend on the SPI ARGUMENTS only
+	PropSPI model.Bytes `json:"proposal_spi,omitempty"`
+	// PropNum, PropProto: proposal number and protocol id carried by the proposal
+	PropNum uint8 `json:"proposal_number,omitempty"`
 }
 
 // two parties as callers do it: initiator picks a, sends g^a; responder builds its SA from the proposal
 var c07TwoParty = probe.Define("C07", "two-party", func(t *rapid.T) c07PartyIn {
 	return c07PartyIn{Suite: genSuite(t), Nonce: gen.BytesLen(t, "nonces", 1, 128, 32, 64), SPIi: rapid.Uint64().Draw(t, "spii"), SPIr: rapid.Uint64().Draw(t, "spir"),
-		EntI: gen.Fill(t, "enti", 40), EntR: gen.Fill(t, "entr", 40), Msg: gen.Message(t, gen.Opts{MaxPayloads: 3, NoBig: true, MaxChain: 1500}), ViaWire: rapid.Bool().Draw(t, "viawire")}
+		EntI: gen.Fill(t, "enti", 40), EntR: gen.Fill(t, "entr", 40), Msg: gen.Message(t, gen.Opts{MaxPayloads: 3, NoBig: true, MaxChain: 1500}), ViaWire: rapid.Bool().Draw(t, "viawire"),
+		PropSPI: rapid.SampledFrom([]model.Bytes{nil, nil, {1, 2, 3, 4, 5, 6, 7, 8}, {0, 0, 0, 0, 0, 0, 0, 0}, {0xff, 0xee, 0xdd, 0xcc}, {9, 9, 9, 9, 9, 9, 9, 9, 9, 9, 9, 9, 9, 9, 9, 9}}).Draw(t, "propspi"),
+		PropNum: uint8(rapid.SampledFrom([]int{0, 1, 1, 2, 255}).Draw(t, "propnum"))}
 }, func(in c07PartyIn) probe.Outcome {
 	s := in.Suite
 	group := dh.StrToType(ref.DHs[s.DH].Name)
@@ -240,6 +247,7 @@ var c07TwoParty = probe.Define("C07", "two-party", func(t *rapid.T) c07PartyIn {
 	if err := probe.Try(func() error { var e error; prop, e = tmpl.ToProposal(); return e }); err != nil {
 		return probe.Fail("ToProposal: %v", err)
 	}
+	prop.SPI, prop.ProposalNumber = append([]byte(nil), in.PropSPI...), in.PropNum
 	if in.ViaWire {
 		sap := &message.SecurityAssociation{Proposals: message.ProposalContainer{prop}}
 		var back message.SecurityAssociation
